@@ -77,6 +77,9 @@ def family(name, k, root):
     if name == 'stack-filter-disk':
         return {'k': 'chain', 'flavour': 'chain', 'layers': [src] + [{'k': 'filter', 'f': f'cpred{j}', 'args': ['image'], 'table': []} for j in range(k)] +
                 [{'k': 'disk', 'names': ['image', 'ids'], 'root': 0}]}, 'ids', None
+    if name == 'crop-rshift':
+        # a long pipeline assembled with `>>` (every `>>` wraps the previous pipeline in a new Chain: nesting as deep as the pipeline is long)
+        return {'k': 'chain', 'flavour': 'rshift', 'layers': [src] + [crop(j) for j in range(k)]}, 'image', 'i1'
     if name == 'chain':
         layers = [src] + [{'k': 'transform', 'cls': f'Ch', 'fields': {'image': {'args': ['image'], 'f': 'ch.image'}}, 'params': {},
                            'cargs': {}, 'defaults': {}, 'inherit': True} for j in range(k)]
@@ -90,7 +93,7 @@ def family(name, k, root):
 
 
 NOCALL = {'stack-groupby-ram'}      # the symbolic grouping function does not return ids: construction and compilation only
-FAMILIES = ['stack-groupby-ram', 'stack-filter-disk', 'diamond-columns', 'diamond', 'diamond-ram', 'diamond-disk', 'diamond-disk-debuglog', 'diamond-meta', 'diamond-filter', 'diamond-groupby', 'diamond-const-groupby', 'chain', 'fanin']
+FAMILIES = ['crop-rshift', 'stack-groupby-ram', 'stack-filter-disk', 'diamond-columns', 'diamond', 'diamond-ram', 'diamond-disk', 'diamond-disk-debuglog', 'diamond-meta', 'diamond-filter', 'diamond-groupby', 'diamond-const-groupby', 'chain', 'fanin']
 
 
 def measure_family(name, sizes, call_cached=True):
